@@ -263,6 +263,9 @@ def run_c16(mbi, case):
         if case.get('damping') not in (None, 0.5):
             kw['damping'] = case['damping']         # a constructor knob of the oracle (LocalInference raises it on the object later)
             faults['non-default-damping'] = 1
+        if case['calls'][0]['seed'] % 4 == 0:
+            kw['minimal'] = False                   # the saturated region graph (constructor knob); derived from a value the case already holds
+            faults['saturated-region-graph(minimal=False)'] = 1
         obj, v = guard(lambda: mbi.RegionGraph(dom, cliques, case['total0'], convex=False, iters=1, **kw), 'RegionGraph')
     else:
         obj, v = guard(lambda: mbi.FactorGraph(dom, cliques, case['total0'], convex=False, iters=1), 'FactorGraph')
